@@ -4,6 +4,7 @@ import (
 	"fmt"
 	"go/token"
 	"go/types"
+	"regexp"
 	"sort"
 	"strings"
 
@@ -260,6 +261,32 @@ var c07Helpers = map[string]string{
 	"goose.TranslationConfig.translatePackage|sortedFiles(pkg.CompiledGoFiles,pkg.Syntax)": "go/packages fills CompiledGoFiles and Syntax in parallel under NeedCompiledGoFiles|NeedSyntax (the configured mode, C17 R17e) for a package without load errors (tested just before)",
 }
 
+var stringLitRE = regexp.MustCompile(`"(?:[^"\\]|\\.)*"`)
+
+// blankStrings replaces the contents of string literals in a key.
+func blankStrings(k string) string { return stringLitRE.ReplaceAllString(k, `"…"`) }
+
+// rawPanicByShape finds the audit entry of a raw panic whose message text changed: the entry of the same function
+// with the same shape once string literals are blanked; each entry discharges at most one site.
+func rawPanicByShape(key string, used map[string]int) (string, bool) {
+	bk := blankStrings(key)
+	if bk == key {
+		return "", false
+	}
+	n, why := 0, ""
+	for k, v := range c07RawPanics {
+		if blankStrings(k) == bk {
+			n++
+			why = v
+		}
+	}
+	if n == 0 || used[bk] >= n {
+		return "", false
+	}
+	used[bk]++
+	return why, true
+}
+
 func panicKey(p *Prog, f *ssa.Function, pn *ssa.Panic) string {
 	v := pn.X
 	if mi, ok := v.(*ssa.MakeInterface); ok {
@@ -499,6 +526,7 @@ func c07Audit(p *Prog, r *Report, prefixed *ssa.Function) {
 			})
 		}
 	}
+	shapeUsed := map[string]int{}
 	for _, pk := range pkgs {
 		for _, f := range p.FuncsIn(pk) {
 			r.Func(FuncName(f))
@@ -521,6 +549,9 @@ func c07Audit(p *Prog, r *Report, prefixed *ssa.Function) {
 					key := panicKey(p, f, x)
 					if why, ok := auditFind(c07RawPanics, key); ok {
 						r.OK("R07b", "raw "+key, instrPos(in), "audited: "+why)
+					} else if why, ok := rawPanicByShape(key, shapeUsed); ok {
+						// the message text was edited: same function, same shape, not more sites than entries
+						r.OK("R07b", "raw "+blankStrings(key), instrPos(in), "audited (message text differs): "+why)
 					} else {
 						r.Unknown("R07b", "raw "+key, instrPos(in), "unaudited raw panic: it escapes the per-declaration recover (which re-panics non-structured values) and aborts goose with a stack trace")
 					}
